@@ -351,7 +351,11 @@ class Kernel:
             if r[0] == pid:
                 self.real_live.discard(pid)
             return r
-        if not self.in_handler:
+        if pid != -1 and pid not in self.procs:
+            # a pid this kernel never handed out (e.g. the finaliser of a Popen object left over from an EARLIER run, which
+            # the garbage collector happens to run now): not an event of this run, no scheduling point
+            raise ChildProcessError(errno.ECHILD, "No child processes")
+        if not self.in_handler and threading.get_ident() == self.main_thread:
             self._point("waitpid")
         live = [p for p in sorted(self.procs.values(), key=lambda p: p.pid)
                 if p.state != "reaped" and (pid == -1 or p.pid == pid)]
